@@ -177,7 +177,7 @@ pub fn run(tier: &Tier, _args: &[String]) -> i32 {
     out.assumptions = vec![
         "user configuration: alice (admin), bob (readonly), carol (role without login), Dave (readwrite), two users whose names coincide after NFKC normalisation ('\u{fb01}ona' readonly, 'fiona' admin), 'zo\u{e9}' (readonly); system users operator (admin) and viewer (readonly); admin token 'secret'".into(),
         "a password matches if it equals the configured one after the trimming and NFKC normalisation that the hash generator (krillc config user) itself applies; user names must match the configured name exactly".into(),
-        "token mutations: every truncation, every single-bit flip of the decoded bytes, every character replaced by each of 6 characters, a menu of re-encodings, every splice of the two valid tokens (head of one, tail of the other, at every character and byte position; thorough: every adjacent byte swap and byte removal), and a token issued by a second instance with its own key; 'arbitrary strings' are a menu, not all strings".into(),
+        "token mutations: every truncation, every single-bit flip of the decoded bytes, every character replaced by each of 6 characters, a menu of re-encodings, every splice of the two valid tokens (head of one, tail of the other, at every character and byte position; thorough: every adjacent byte swap and byte removal), and a token issued by a second instance with its own key (also between two instances that were each restarted once); 'arbitrary strings' are a menu, not all strings".into(),
         "transports: the TCP path (no peer user) and the Unix-socket path (peer user in the request extensions, as the socket listener sets it); OpenID Connect is not exercised (needs an external provider)".into(),
     ];
     let root = crate::e1run::scratch_root();
@@ -423,6 +423,59 @@ pub fn run(tier: &Tier, _args: &[String]) -> i32 {
             }
             drop(d2);
             let _ = std::fs::remove_dir_all("../second");
+        }
+
+        // ---- part 3b: two other instances, each restarted once (the
+        // session key is then the one that was stored, not the one the first
+        // start drew): neither accepts the other's token
+        if k == 2 % procs {
+            n += 1;
+            let here = std::env::current_dir().unwrap();
+            let mut restarted: Vec<(Daemon, String)> = Vec::new();
+            let mut failed = false;
+            for dir in ["../third", "../fourth"] {
+                std::fs::create_dir_all(dir).unwrap();
+                std::env::set_current_dir(dir).unwrap();
+                let r = (|| -> Result<(Daemon, String), String> {
+                    let _ = crate::checks::c16::build_api_fixture_pub()?;
+                    let first = Daemon::open(config(), false)?;
+                    let (_, t) = login(&first, "alice", "alice-pw");
+                    if t.is_none() {
+                        return Err("login at the first start failed".into());
+                    }
+                    drop(first);
+                    let again = Daemon::open(config(), false)?;
+                    let (_, t) = login(&again, "alice", "alice-pw");
+                    let Some((t, _, _)) = t else { return Err("login after the restart failed".into()) };
+                    Ok((again, t))
+                })();
+                std::env::set_current_dir(&here).unwrap();
+                match r {
+                    Ok(x) => restarted.push(x),
+                    Err(e) => {
+                        results.push(json!({"machinery": format!("restarted instance {dir}: {e}")}));
+                        failed = true;
+                    }
+                }
+            }
+            if !failed && restarted.len() == 2 {
+                for (i, j) in [(0usize, 1usize), (1, 0)] {
+                    // (requests are served from the instance's own directory)
+                    std::env::set_current_dir(["../third", "../fourth"][i]).unwrap();
+                    let got = probe(&restarted[i].0, &Call { bearer: Some(restarted[j].1.clone()), ..Default::default() });
+                    let own = probe(&restarted[i].0, &Call { bearer: Some(restarted[i].1.clone()), ..Default::default() });
+                    std::env::set_current_dir(&here).unwrap();
+                    if got.iter().any(|g| served(*g)) {
+                        bad("token", "token issued by another instance, both instances restarted once".into(), "forged-token-accepted", format!("{got:?}"), &mut results);
+                    }
+                    if !own.iter().any(|g| served(*g)) {
+                        bad("token", "an instance's own token after its restart".into(), "genuine-token-refused", format!("{own:?}"), &mut results);
+                    }
+                }
+            }
+            drop(restarted);
+            let _ = std::fs::remove_dir_all("../third");
+            let _ = std::fs::remove_dir_all("../fourth");
         }
 
         // ---- part 4: Unix-socket peer users
